@@ -48,7 +48,8 @@ F5 == { Oks(1, 1) \o Oks(2, 1) \o Oks(3, 1) \o Fails(b, m) \o Wait(a) \o <<Chk>>
 F6 == { Fails(1, 2) \o <<Chk>> \o Wait(30) \o <<Chk>> \o Wait(w) \o <<Sel(1, "rr"), Chk, Done(o1), Call(1, o2, "rr"), Chk>>
         \o Fails(1, 2) \o Wait(60) \o <<Chk, Call(1, TRUE, "mod"), Chk>>
         : w \in {0, 30}, o1 \in BOOLEAN, o2 \in BOOLEAN }
-Plans == CASE Family = "F6" -> F6 [] Family = "F1" -> F1 [] Family = "F2" -> F2 [] Family = "F3" -> F3 [] Family = "F4" -> F4 [] Family = "F5" -> F5
+\* families over the same constants are generated in one TLC run: "A+B"
+Plans == CASE Family = "F6" -> F6 [] Family = "F1+F2+F3" -> F1 \cup F2 \cup F3 [] Family = "F3+F4" -> F3 \cup F4 [] Family = "F1" -> F1 [] Family = "F2" -> F2 [] Family = "F3" -> F3 [] Family = "F4" -> F4 [] Family = "F5" -> F5
 
 AllTrue == [e \in Eps |-> TRUE]
 Tok == plan[pos]
